@@ -35,6 +35,10 @@ C19_PARTS = [
                 "consts": {"F": "4", "PX": "1", "L": "2", "Fixes": tlc.tla_set(["F15"])}},
      "args": {"F": 4, "PX": 1, "L": 2, "H": 2},
      "trace": {"module": "TraceLabels.tla", "consts": {"F": "4", "PX": "1", "L": "2", "Fixes": tlc.tla_set(["F15"])}}},
+    # large label values in a narrow unsigned array: the running offset exceeds the input's dtype range
+    {"name": "unique_u8", "driver": "labels_unique",
+     "args": {"F": 3, "PX": 2, "L": 2, "labelmap": [0, 100, 200], "dtype": "uint8"},
+     "trace": {"module": "TraceLabels.tla", "consts": {"F": "3", "PX": "2", "L": "2", "Fixes": tlc.tla_set(["F15"])}}},
     {"name": "by_track", "driver": "track_labels",
      "design": {"module": "TrackLabels.tla", "invariants": ["Emit"], "workers": 1, "emit": "IN", "emit_parse": parse_tl,
                 "consts": {"T": "3", "K": "2", "PX": "2"}},
@@ -70,6 +74,18 @@ C18_PARTS = [
      "args": {"quick": {"T": 3, "PX": 3, "variants": [[1, 1]], "labelmap": [0, 64, 1024, 256, 512, 3072, 4096]},
               "thorough": {"T": 3, "PX": 3, "variants": [[1, 1], [2, 2]], "labelmap": [0, 64, 1024, 256, 512, 3072, 4096]}},
      "trace": {"module": "TraceCandSeg.tla", "consts": {"T": "3", "PX": "3"}}},
+    # label values beyond 16 bits in a 32-bit signed array (packed label pairs overflow 32 bits)
+    {"name": "seg_int32labels", "driver": "cand_seg",
+     "args": {"T": 3, "PX": 3, "variants": [[1, 1]], "dtype": "int32",
+              "labelmap": [0, 70000, 70002, 65536, 131072, 99999, 100003]},
+     "trace": {"module": "TraceCandSeg.tla", "consts": {"T": "3", "PX": "3"}}},
+    # five frames (a gap with two populated frames on either side: 0, 1, _, 3, 4), two grid positions / one pixel
+    {"name": "points_t5", "driver": "cand_points", "tiers": ("quick",),
+     "args": {"T": 5, "D": 2, "npos": 2, "shuffle": True},
+     "trace": {"module": "TraceCandGraph.tla", "consts": {"T": "5", "D": "2", "Fixes": tlc.tla_set(["F14"])}}},
+    {"name": "seg_t5", "driver": "cand_seg",
+     "args": {"T": 5, "PX": 1, "variants": [[1, 1]]},
+     "trace": {"module": "TraceCandSeg.tla", "consts": {"T": "5", "PX": "1"}}},
 ]
 
 def _nm_part(table, req, qlen, tlen, tiers=("quick", "thorough")):
@@ -116,8 +132,8 @@ C12_PARTS = [
      "design": {"module": "Import.tla", "invariants": ["Inv_Import"],
                 "consts": {"quick": {"MaxRows": "2", "Fixes": tlc.tla_set(["F11"])},
                            "thorough": {"MaxRows": "3", "Fixes": tlc.tla_set(["F11"])}}},
-     "args": {"quick": {"maxrows": 2, "variants": [["identity", "-1"], ["renamed", "nan"], ["identity", "empty"], ["reindexed", "nan"]]},
-              "thorough": {"maxrows": 3, "variants": [["identity", "-1"], ["renamed", "nan"], ["renamed", "empty"], ["reindexed", "-1"]]}},
+     "args": {"quick": {"maxrows": 2, "variants": [["identity", "-1"], ["renamed", "nan"], ["identity", "empty"], ["reindexed", "nan"], ["mixed", "-1"]]},
+              "thorough": {"maxrows": 3, "variants": [["identity", "-1"], ["renamed", "nan"], ["renamed", "empty"], ["reindexed", "-1"], ["mixed", "nan"]]}},
      "trace": {"module": "TraceImport.tla",
                "consts": {"quick": {"MaxRows": "2", "Fixes": tlc.tla_set(["F11"])},
                           "thorough": {"MaxRows": "3", "Fixes": tlc.tla_set(["F11"])}}}},
